@@ -73,6 +73,22 @@ def shard(ctx, arg):
     idx, count = arg
     from androguard.core import dex
     rng = ctx.rng("c06", idx)
+    if idx % 2:
+        # the process has used the rename API on ANOTHER, unrelated DEX object before (half of the shards): the strings of the files parsed
+        # afterwards are still their own
+        import os
+        from vf.harness import REPO
+        try:
+            with open(os.path.join(REPO, "tests", "data", "APK", "FieldsTest.dex"), "rb") as f:
+                other = dex.DEX(f.read())
+            for c in other.get_classes():
+                cd = c.get_class_data()
+                for j, em in enumerate((cd.get_direct_methods() + cd.get_virtual_methods() + cd.get_static_fields() + cd.get_instance_fields()) if cd else []):
+                    em.set_name("renamed_in_another_file_%d" % j)
+                    ctx.count("renames_done_in_an_unrelated_dex_object_before")
+            shard._other = other
+        except Exception as e:
+            ctx.count("rename_prologue_raises_" + type(e).__name__)
     for k in range(count):
         strs = set()
         n = rng.choice([1, 3, 10, 40])
